@@ -67,6 +67,14 @@ CLAIMED = {
     text="Coq theorems over the model of the hashed text (Model/HashText.v: the raw builders of handle_message_def/handle_signal/handle_struct, dedent) and an executable SHA-256 (Lib/Sha256.v, checked on standard vectors): the text depends only on kind, name, id and the ordered (field, type-text) list (C13_depends_only); on well-formed definitions the text determines the definition, so every edit incl. reordering and signal/message/struct changes the text (C13_injective, C13_every_edit_changes_text, C13_reordering_changes_text); the literals emitted by the four back ends denote the same number first32(sha256 text) (C13_same_everywhere). NOT provable by any technique: distinct texts have distinct 32-bit digests (collision assumption, named). That Client.send_message/send_signal stamp the hash and the manager forwards it unchanged is checked structurally (ast) and on captured frames, not a theorem.",
     note="Trusted: Coq kernel, guards translator, the harness comparing model text/digest with parser.py's raw/hash and with the compiled Python/C/JS/Matlab outputs; SHA-256 collision resistance for the final 'different definition => different version' step. No axioms.",
     technique="Coq proof (string injectivity lemmas, executable SHA-256 by vm_compute) + correspondence on generated definitions + ast/frames probe for the stamping sites", design="6/C13"),
+ "C09": dict(
+    text="Coq theorems over the executable model of the field validators (Model/Values.v, Floats.v via Flocq binary32/binary64, Flag.v; validator table and raise-guards regenerated from validators.py) for ALL values, field kinds, positions, slices and images: C09_refuse (an out-of-domain value is refused at every position, NaN neighbours included), C09_atomic (a refused validated assignment changes nothing), C09_extent (an accepted one changes only the field's own bytes), read-back theorems for scalars/indices/whole arrays/any slice/struct arrays, C09_int_roundtrip, C09_float_nearest (Float fields store round-to-nearest-even binary32 iff |x| < 2^128-2^103, else refused) and C09_flag / C09_flag_threads_independent (for every well-nested trace incl. exit by exception, validation is on iff no disabling block is open in that context). Tied to the code by the translator and by assigning the same values to real message classes (raised-or-not, bytes afterwards, read-back).",
+    note="Trusted: Coq kernel; Flocq and, through it, the four standard-library Reals axioms (reported by Print Assumptions/coqchk for the theorems that mention float storage); vlib/translate/validators_tbl.py; the harness (ctypes/CPython semantics of stores and cvtsd2ss are modelled and validated by correspondence, not verified). No axioms declared by the development.",
+    technique="Coq proof (byte-level store/load lemmas, Flocq rounding theorem, induction over flag traces) over translated tables + correspondence by vm_compute + spec oracle", design="6/C09"),
+ "C10": dict(
+    text="Coq theorems over the model of the codecs (Model/Codec.v: bytes, to_dict/from_dict, to_json/from_json incl. the version guard, copy): C10_bytes (from_buffer_copy(bytes m) = m), C10_reach_invariant / C10_reach_strings_clean (every image reachable from the zero message by validated assignments satisfies the codec invariant; no stale bytes after a NUL), C10_dict (full: from_dict(to_dict m) = m for every reachable image), C10_json_partial (JSON round trip under nans_canonical) with C10_json_refuted (m.d = -nan: the recorded finding), C10_copy, C10_version, C10_message_partial. Tied to the code by the translator (guards, ctypes of Char/String/Float/Double, version guard) and by round-tripping generated and imported message classes through the real codecs.",
+    note="Trusted: as C09, plus Python's json module and ctypes introspection (modelled, validated by correspondence). Two recorded open findings (NaN sign/payload lost through JSON; ctypes instances bypass validation) are identified by input class in known_findings.d/values.txt.",
+    technique="Coq proof (reachability invariant by induction over assignment histories, codec inversion lemmas) + translated guards + correspondence + spec oracle", design="6/C10"),
 }
 NOT_YET = {}
 ALL = ["C%02d" % i for i in range(1, 20)]
